@@ -141,6 +141,10 @@ def _pair(ctx, A, B):
         for what, a1, a2, X, Y in (("int vs fractional float", np.array(A, dtype=int).reshape(-1, 2), farr(Bh), A, Bh),
                                    ("fractional float vs int", farr(Bh), np.array(A, dtype=int).reshape(-1, 2), Bh, A)):
             check_val(ctx, "value-mixed-dtype", ctx.call(persim.sliced_wasserstein, a1, a2, M=M), X, Y, M, what)
+        Bq = [[x / 3.0 + 0.1 + 1e-9 for x in p] for p in B]
+        A32 = np.array(A, dtype=np.float32).reshape(-1, 2)
+        check_val(ctx, "value-mixed-dtype", ctx.call(persim.sliced_wasserstein, A32, farr(Bq), M=M), A, Bq, M, "float32 array vs float64 array")
+        check_val(ctx, "value-mixed-dtype", ctx.call(persim.sliced_wasserstein, farr(Bq), A32, M=M), Bq, A, M, "float64 array vs float32 array")
         # integer-typed arrays with large values / unsigned dtypes (only for non-negative diagrams)
         if all(x >= 0 for p in A + B for x in p):
             for dt, kk in ((np.int64, 4 * 10 ** 9), (np.int32, 50000), (np.uint8, 60)):
